@@ -82,7 +82,7 @@ Definition in_scope (pv : N) (m : mexpr) : Prop :=
   | EVersion k op rel => rel <> [] /\ (op = OTilde -> (2 <= length rel)%nat) /\
                          (k = pv -> ~ (is_star op = true /\ (2 < length rel)%nat))
   | EVersionIn k vs _ =>
-      forall v, In v vs -> fst v = 0 /\ snd (snd v) = FINAL /\ fst (snd v) <> [] /\ (k = pv -> (length (fst (snd v)) <= 2)%nat)
+      forall v, In v vs -> fst (snd v) <> [] /\ (k = pv -> (length (fst (snd v)) <= 2)%nat)
   | _ => True
   end.
 
